@@ -126,4 +126,17 @@ theorem valid_lt (t : Ty) (v : Nat) (hv : ValidBits t v) : v < 256 ^ sizeofT t :
   · simpa [ValidBits, hb] using hv
 
 
+/-- decoding an array's storage gives its elements -/
+theorem memVals_arrayMem (t : Ty) (vs : List Nat) (hv : ∀ v ∈ vs, ValidBits t v) :
+    memVals (sizeofT t) vs.length (arrayMem t vs) = vs := by
+  rw [arrayMem_spec]
+  induction vs with
+  | nil => simp [memVals]
+  | cons a r ih =>
+    have hb : (bytes host (sizeofT t) a).length = sizeofT t := bytes_length _ _ _
+    simp only [List.flatMap_cons, List.length_cons, memVals]
+    rw [List.take_left' hb, List.drop_left' hb, ih (fun v h => hv v (List.mem_cons_of_mem _ h))]
+    congr 1
+    simp [objVal, host, hostLittle, bytes_little, leVal_leBytes, Nat.mod_eq_of_lt (valid_lt t a (hv a List.mem_cons_self))]
+
 end AslProofs.StreamSpec
